@@ -10,7 +10,7 @@
    standard defines the code (any member of that enumeration otherwise), the rate-of-turn sentinel member. *)
 From Coq Require Import ZArith List Bool String.
 Require Import Prim.Exn Prim.Bits Gen.GenEnums Model.FieldTypes Gen.GenTables Gen.GenDispatch Model.Codec Spec.Layout Spec.LayoutRel
-               Proofs.BitsLemmas Proofs.CodecDecode.
+               Proofs.BitsLemmas Proofs.CodecCommon Proofs.CodecDecode.
 Import ListNotations.
 Open Scope Z_scope.
 
